@@ -35,6 +35,9 @@ inductive Op where
   | process (pid : Nat)            -- a proposal that can be fetched
   | processUnknown                 -- a proposal fact nobody delivers
   | save (pid avpHeight newBlock : Nat)
+  /-- like `save`, but the writer stores the block and the call is then reported as cancelled
+  (`context.Canceled` out of the writer's Save) -/
+  | saveCanceled (pid avpHeight newBlock : Nat)
   | cancel
 deriving Repr, DecidableEq
 
@@ -69,6 +72,19 @@ def step (s : St) : Op → St × Res
           else if p.cancelled then (s1, .canceled)
           else if p.manifest ≠ some nb then (s1, .notProcessed)
           else ({ s1 with log := s.log ++ [{ height := hOf p.pid, pid := p.pid, newBlock := nb }] }, .ok)
+  | .saveCanceled pid avpHeight nb =>
+    if avpHeight ≤ s.prev then ({ s with cur := none }, .alreadySaved)
+    else match s.cur with
+      | none => (s, .notProcessed)
+      | some p =>
+        if p.pid ≠ pid then ({ s with cur := none }, .notProcessed)
+        else
+          let s1 : St := { s with prev := avpHeight, cur := none }
+          if p.saved then (s1, .alreadySaved)
+          else if p.cancelled then (s1, .canceled)
+          else if p.manifest ≠ some nb then (s1, .notProcessed)
+          -- the block is written; the caller is told "not processed"; previousSaved keeps the height
+          else ({ s1 with log := s.log ++ [{ height := hOf p.pid, pid := p.pid, newBlock := nb }] }, .notProcessed)
   | .cancel => ({ s with cur := none }, .ok)
 
 def run (s : St) : List Op → St
@@ -78,6 +94,7 @@ def run (s : St) : List Op → St
 /-- save calls as the consensus handlers make them: the ACCEPT voteproof is of the proposal's height -/
 def wfOp : Op → Prop
   | .save pid avpHeight _ => avpHeight = hOf pid
+  | .saveCanceled pid avpHeight _ => avpHeight = hOf pid
   | _ => True
 
 end Mitum.Processors
